@@ -289,7 +289,8 @@ def run_check(prop, tier, seed):
             "distinct_nontrivial": sum(r["distinct_nontrivial"] for r in tie) + orc["distinct_nontrivial"],
             "rule": "correspondence scenarios are distinct by hash of their operation list and non-trivial when they contain at least one append and produce candle output; oracle cases per "
             + prop.ORACLE_RULE,
-            "samples": orc.get("samples", [])[:3],
+            "samples": orc.get("samples", [])[:3]
+            + [{"correspondence_component": r["component"], "first_operations": r["sample"]} for r in tie[:2] if r.get("sample")],
             "correspondence": [
                 {"component": r["component"], "seed": r["seed"], "cases": r["cases"], "max_size": r["size"],
                  "disagreements": len(r["disagreements"])} for r in tie
